@@ -44,15 +44,33 @@ func main() {
 	flag.Parse()
 	_ = chanMode
 	repl := map[string]string{}
+	rtOpts := map[string]bool{}
 	must(os.MkdirAll(*out, 0o755))
 	if *flavour == "sched" {
 		for _, p := range pkgs {
+			// "dir:file1.go+file2.go" restricts the rewrite to the named files of the package
+			// (needed when other files of it hand sync types to libraries, e.g. *sync.Pool).
+			if strings.HasPrefix(p, "@") {
+				// "@name": option for the runtime overlay of THIS check only (see detrt)
+				rtOpts[p[1:]] = true
+				continue
+			}
+			p, only, _ := strings.Cut(p, ":")
+			onlySet := map[string]bool{}
+			for _, f := range strings.Split(only, "+") {
+				if f != "" {
+					onlySet[f] = true
+				}
+			}
 			dir := filepath.Join(*repo, p)
 			ents, err := os.ReadDir(dir)
 			must(err)
 			for _, e := range ents {
 				n := e.Name()
 				if e.IsDir() || !strings.HasSuffix(n, ".go") || strings.HasSuffix(n, "_test.go") {
+					continue
+				}
+				if len(onlySet) > 0 && !onlySet[n] {
 					continue
 				}
 				src := filepath.Join(dir, n)
@@ -66,7 +84,7 @@ func main() {
 			}
 		}
 	}
-	detrt(*goroot, *out, repl)
+	detrt(*goroot, *out, repl, rtOpts)
 	if *flavour == "crash" {
 		oshooks(*goroot, *out, repl)
 	}
@@ -257,7 +275,55 @@ func replaceAllCount(s, old, new string, min int) string {
 	return strings.ReplaceAll(s, old, new)
 }
 
-func detrt(goroot, out string, repl map[string]string) {
+func detrt(goroot, out string, repl map[string]string, opts map[string]bool) {
+	if opts["dettimers"] {
+		// opt-in (engine E5): synctest deliberately fires fake timers that expire at the same
+		// instant in RANDOM order; make the tie-break a harness-selected rule instead
+		// (runtime.VerifTimerTie: 0 = armed first fires first, 1 = armed last fires first).
+		patch(goroot, out, repl, "runtime/time.go", func(s string) string {
+			return replaceAllCount(s, "t.rand = cheaprand()", "t.rand = verifTimerRand()", 1)
+		})
+		dst := filepath.Join(out, "goroot__runtime_verif_e5.go")
+		writeIfChanged(dst, []byte(`package runtime
+
+import "internal/runtime/atomic"
+
+// VerifTimerTie selects the order in which synctest (fake) timers that expire at the same
+// instant fire: 0 = armed first fires first, 1 = armed last fires first (verification build only;
+// the stock runtime picks a random order).
+var VerifTimerTie int32
+
+var verifTimerSeq atomic.Uint32
+
+func verifTimerRand() uint32 {
+	n := verifTimerSeq.Add(1)
+	if VerifTimerTie == 1 {
+		return ^n
+	}
+	return n
+}
+`))
+		repl[filepath.Join(goroot, "src/runtime/verif_e5.go")] = dst
+	}
+	// opt-in (engine E5): sysmon never force-preempts a goroutine that has been running for
+	// 10ms of WALL time. On a loaded machine the OS can deschedule the thread for that long in
+	// the middle of a microsecond burst, and the forced yield reorders the run queue, which
+	// makes an event history a function of the machine load. Checks that do not ask for it
+	// keep the stock behaviour (and their build cache).
+	if opts["noforcepreempt"] || opts["nosysretake"] {
+		patch(goroot, out, repl, "runtime/proc.go", func(s string) string {
+			if opts["noforcepreempt"] {
+				s = replaceAllCount(s, "} else if pd.schedwhen+forcePreemptNS <= now {", "} else if false && pd.schedwhen+forcePreemptNS <= now {", 1)
+			}
+			if opts["nosysretake"] {
+				// sysmon never takes the P away from a goroutine that sits in a (file) system
+				// call for more than 20us of WALL time; with one P the goroutines of an event
+				// loop then cannot overtake a watcher that is reading its WAL segment.
+				s = replaceAllCount(s, "\t\tif s == _Psyscall {\n\t\t\t// Retake P from syscall", "\t\tif false && s == _Psyscall {\n\t\t\t// Retake P from syscall", 1)
+			}
+			return s
+		})
+	}
 	// select: poll cases in a fixed order
 	patch(goroot, out, repl, "runtime/select.go", func(s string) string {
 		return replaceAllCount(s, "j := cheaprandn(uint32(norder + 1))", "j := uint32(norder)", 1)
